@@ -260,6 +260,21 @@ class DisconnectCallbackBoom(Exception):
     """What a raising disconnect callback of the harness raises."""
 
 
+_LOCATORS = {}
+
+
+def locators(client, message):
+    """Per tree under test: the reply converter and the serial counter, found through public behaviour
+    (harness/c08_locate.py) - no private helper of the library is named."""
+    from harness import c08_locate
+    key = (id(client), id(message))
+    if key not in _LOCATORS:
+        _LOCATORS[key] = types.SimpleNamespace(conv=c08_locate.Converter(client, message),
+                                               serials=c08_locate.SerialCounter(message),
+                                               NOCHECK=c08_locate.Converter.NOCHECK, mod=c08_locate)
+    return _LOCATORS[key]
+
+
 class SetupFailure(Exception):
     """The connection could not be brought to the ready state: the Hello call - itself a remote call - was
     not completed by its matching return."""
@@ -279,7 +294,8 @@ class Impl:
         self.failure = failure
         self.clock = task.Clock()
         client.reactor = self.clock
-        message.DBusMessage._nextSerial = scn.get('serial0', 1)
+        self.loc = locators(client, message)
+        self.loc.serials.set(scn.get('serial0', 1))
         self.factory = client.DBusClientFactory()
         self.conn = self.factory.buildProtocol(None)
         self.tr = StringTransport()
@@ -295,8 +311,7 @@ class Impl:
         self.templates = scn.get('stream') != 'random-schedules'
         if scn.get('ready', True):
             if self.templates:
-                own = message.DBusMessage._nextSerial
-                message.DBusMessage._nextSerial = own + 1
+                own = self.loc.serials.take()
                 self.conn.dataReceived(patched_reply(message, 'hello', 0, self.hello_serial, own))
             else:
                 self.conn.dataReceived(message.MethodReturnMessage(
@@ -316,6 +331,7 @@ class Impl:
         self.rdid = {}         # ('r'|'s'|'d', k, j) -> did of the j-th call issued by that callback
         self.dcs = []          # disconnect callbacks registered so far
         self.others = []       # other connections of the process
+        self.foreign = set()   # delayed calls that belong to them (same reactor)
         self.is_lost = False
         self.created = []      # dids created during the current operation, in order
         self.harness_error = None
@@ -390,7 +406,7 @@ class Impl:
                 mcall = self.message.MethodCallMessage('/obj', 'Method', interface='org.t.Iface',
                                                        destination='org.t.Dest')
             d = self.conn.callRemoteMessage(mcall, timeout)
-            d.addCallback(self.conn._cbCvtReply, self.client._NO_CHECK_RETURN)     # what callRemote adds
+            d.addCallback(lambda m: self.loc.conv.convert(m, self.loc.NOCHECK))       # what callRemote adds
         else:
             d = self.conn.callRemote('/obj', 'Method', interface='org.t.Iface', destination='org.t.Dest',
                                      expectReply=bool(er), timeout=timeout, **kw)
@@ -449,14 +465,13 @@ class Impl:
             return 0x7f000000 + n
         if kind == 'h':
             return self.hello_serial
-        return self.message.DBusMessage._nextSerial + n    # 'f': ahead of the counter
+        return self.loc.serials.peek() + n    # 'f': ahead of the counter
 
     def raw_reply(self, op):
         m = self.message
         serial = self.serial_of(op[1])
         if self.templates:
-            own = m.DBusMessage._nextSerial      # the reply would have consumed one serial of the
-            m.DBusMessage._nextSerial = own + 1  # process-wide counter: keep doing that
+            own = self.loc.serials.take()        # the reply would have consumed one serial of the process-wide counter
             return serial, patched_reply(m, op[0], op[2], serial, own)
         if op[0] == 'ret':
             sig, body = RET_VARIANTS[op[2]]
@@ -551,13 +566,9 @@ class Impl:
                 timeout = self.timeout_for(('t', len(self.top)), did, c['tmo'])
                 mcall = c.get('mcall')
                 if mcall is None:
-                    mcall = self.message.MethodCallMessage('/obj', 'Method', interface='org.t.Iface',
-                                                           destination='org.t.Dest')
-                    mcall.serial = c['serial']
-                    mcall._marshal(newSerial=False)
-                    c['mcall'] = mcall
+                    raise ValueError('recall of a call that was not made with a prepared message (callmsg)')
                 d = self.conn.callRemoteMessage(mcall, timeout)
-                d.addCallback(self.conn._cbCvtReply, self.client._NO_CHECK_RETURN)
+                d.addCallback(lambda m: self.loc.conv.convert(m, self.loc.NOCHECK))
                 self.calls.append({'serial': c['serial'], 'er': True, 'tmo': c['tmo'], 'rs': 'K', 'mcall': mcall,
                                    'ref': ('t', len(self.top))})
                 self.created.append(did)
@@ -603,7 +614,7 @@ class Impl:
             faults.append('keyError')
         except (self.terror.AlreadyCalled, self.terror.AlreadyCancelled):
             faults.append('alreadyCalled')
-        except (AssertionError, ValueError):
+        except (AssertionError, ValueError, self.loc.mod.LocateError):
             raise
         except Exception as e:   # anything else escaping the code under test
             faults.append('exc:' + type(e).__name__)
@@ -616,19 +627,12 @@ class Impl:
         """A second connection of the same process (own transport, same reactor), made ready, with one call
         outstanding that nothing in the scenario ever answers: whatever happens on the first connection, it must
         neither complete nor disappear."""
-        from twisted.internet.testing import StringTransport
-        m = self.message
-        f = self.client.DBusClientFactory()
-        c = f.buildProtocol(None)
-        t = StringTransport()
-        c.makeConnection(t)
-        t.clear()
-        c.dataReceived(b'OK 1234deadbeef\r\n')
-        hello = le32(t.value()[7 + 8:7 + 12])
-        c.dataReceived(m.MethodReturnMessage(hello, signature='s', body=[':1.43']).rawMessage)
+        before = set(id(dc) for dc in self.clock.getDelayedCalls())
+        c, t, f, hello = self.loc.mod.ready_connection(self.client, self.message, ':1.43')
         t.clear()
         d = c.callRemote('/obj', 'Method', interface='org.t.Iface', destination='org.t.Dest')
         serial = le32(t.value()[8:12])
+        self.foreign |= set(id(dc) for dc in self.clock.getDelayedCalls()) - before
         fired = []
         d.addBoth(fired.append)
         self.others.append({'conn': c, 'serial': serial, 'fired': fired, 'ready': c.busName == ':1.43'})
@@ -645,7 +649,7 @@ class Impl:
 
     def my_delayed(self):
         """Delayed calls of THIS connection (another connection of the process uses the same reactor)."""
-        return [dc for dc in self.clock.getDelayedCalls() if getattr(dc.func, '__self__', None) is self.conn]
+        return [dc for dc in self.clock.getDelayedCalls() if id(dc) not in self.foreign]
 
     # -- canonical observation -------------------------------------------------
     def outcome_str(self, did, kind, val):
@@ -691,12 +695,30 @@ class Impl:
         for serial, (d, timeout) in self.conn._pendingCalls.items():
             ps.append('%d:%s:%s' % (serial, self.dids.get(id(d), '?'), 't' if timeout else '-'))
         ts = []
+        unmatched = []
         for dc in self.my_delayed():
-            a = dc.args
-            if len(a) == 2 and id(a[1]) in self.dids:
-                ts.append((self.dids[id(a[1])], a[0]))
+            # which call the timer belongs to: the Deferred among its arguments, else the serial among them
+            args = list(dc.args) + list(dc.kw.values())
+            did = next((self.dids[id(a)] for a in args if id(a) in self.dids), None)
+            serial = next((a for a in args if type(a) is int), None)
+            if did is None and serial is not None:
+                did = next((k for k in range(len(self.calls) - 1, -1, -1) if self.calls[k]['serial'] == serial), None)
+            if did is not None and serial is None:
+                serial = self.calls[did]['serial']
+            if did is not None and serial is not None:
+                ts.append((did, serial))
             else:
+                unmatched.append(dc)
+        # a timer that carries neither (a closure): the call whose deadline it has
+        taken = set(t[0] for t in ts) | set(r[0] for r in self.rec)      # completed calls have no timer to claim
+        for dc in unmatched:
+            did = next((k for k in sorted(self.deadline) if k not in taken and self.calls[k]['er']
+                        and abs(self.deadline[k] - dc.getTime()) < 1e-9), None)
+            if did is None:
                 ts.append((-1, -1))
+            else:
+                taken.add(did)
+                ts.append((did, self.calls[did]['serial']))
         ts.sort()
         return 'F[%s] P[%s] T[%s] X[%s]' % (';'.join(fs), ','.join(ps),
                                             ','.join('%d:%d' % t for t in ts), ','.join(faults))
@@ -1386,7 +1408,7 @@ def gen_resend():
 def gen_reuse(rng):
     """Scenarios that re-send one message object (same serial): correspondence of the dict overwrite and of the
     faults (KeyError / AlreadyCalled) only; the property's hypothesis does not hold here."""
-    ops = [['call', 1, rng.choice('PNZ'), 'K']]
+    ops = [['callmsg', rng.choice('PNZ')]]
     n = 1
     for _ in range(rng.randint(2, 7)):
         r = rng.random()
@@ -1394,7 +1416,7 @@ def gen_reuse(rng):
             ops.append(['recall', rng.randrange(n)])
             n += 1
         elif r < 0.4:
-            ops.append(['call', 1, rng.choice('PN'), 'K'])
+            ops.append(['callmsg', rng.choice('PN')])
             n += 1
         elif r < 0.7:
             ops.append([rng.choice(['ret', 'err']), rng.randrange(n), rng.randrange(3)])
@@ -1413,6 +1435,8 @@ def fix_reuse(scn):
     for op in scn['ops']:
         if op[0] == 'call':
             tmo.append(op[2])
+        elif op[0] == 'callmsg':
+            tmo.append(op[1])
         elif op[0] == 'recall':
             tmo.append(tmo[op[1]])
         elif op[0] == 'expire' and tmo[op[1]] != 'P':
@@ -1447,8 +1471,10 @@ CVT_RS = RS_VARIANTS + ['__DBUS_NO_RETURN_VALUE', 'as', '(i)s']
 
 def run_cvt_direct(ctx):
     import txdbus.client as client
-    from txdbus import error
-    conn = client.DBusClientConnection()
+    from txdbus import error, message
+    loc = locators(client, message)
+    ctx.note('reply converter located through: ' + loc.conv.route)
+    sentinel = loc.conv.sentinel       # a str today; an object() would equal no string
     cases = [(rs, m) for rs in CVT_RS for m in CVT_MSGS]
     lines = []
     for rs, m in cases:
@@ -1459,11 +1485,11 @@ def run_cvt_direct(ctx):
     out = ctx.model(lines)
     for i, (rs, m) in enumerate(cases):
         msg = None if m is None else types.SimpleNamespace(signature=m[0], body=m[1])
-        arg = client._NO_CHECK_RETURN if rs == 'K' else rs
+        arg = loc.NOCHECK if rs == 'K' else rs
         raised = None
         val = None
         try:
-            val = conn._cbCvtReply(msg, arg)
+            val = loc.conv.convert(msg, arg)
             if val is None:
                 impl = 'N'
             elif m is not None and m[1] and len(m[1]) == 1 and val is m[1][0]:
@@ -1475,6 +1501,8 @@ def run_cvt_direct(ctx):
         except error.RemoteError as e:
             raised = e
             impl = 'SE'
+        except loc.mod.LocateError:
+            raise
         except Exception as e:          # a Python error on a shape no parsed message has
             raised = e
             impl = 'PYERR'
@@ -1491,11 +1519,10 @@ def run_cvt_direct(ctx):
             ctx.disagree('cvt-direct', case, out[i], impl)
         if m is None:
             if not (raised is None and val is None):
-                ctx.violation('reply-convention', '_cbCvtReply(None) must give None', case, impl, 'N')
+                ctx.violation('reply-convention', 'an expectReply=False call must deliver None', case, impl, 'N')
             continue
         have = m[0] or ''
         vals = m[1] or []
-        sentinel = client._NO_CHECK_RETURN      # a str today; an object() would equal no string
         declared = None if (rs == 'K' or (isinstance(sentinel, str) and rs == sentinel)) else rs
         if rs is None:
             if isinstance(raised, error.RemoteError):
@@ -1656,7 +1683,8 @@ def run(ctx):
     import txdbus.client as client
     saved_reactor = client.reactor
     from txdbus import message
-    saved_serial = message.DBusMessage._nextSerial
+    counter = locators(client, message).serials
+    saved_serial = counter.peek() if counter.settable() else None
     try:
         run_cvt_direct(ctx)
         corpus = [c for _, c in ctx.corpus()]
@@ -1689,7 +1717,8 @@ def run(ctx):
         process_batch(ctx, [gen_not_ready(ctx.rng) for _ in range(ctx.scale(quick=100, thorough=1000))])
     finally:
         client.reactor = saved_reactor
-        message.DBusMessage._nextSerial = max(saved_serial, message.DBusMessage._nextSerial)
+        if saved_serial is not None:
+            counter.set(max(saved_serial, counter.peek()))
 
 
 def replay(ctx, data):
